@@ -88,7 +88,7 @@ def oracle(name, ib, mb, meta):
     fails = []; trs = {}
     for i, b in enumerate(ib):
         if not b.op.startswith('frame') or b.fault: continue
-        ctx, fr = frame_of(b); d = dec(fr + bytes(max(0, 36 - len(fr))))
+        ctx, fr = frame_of(b); d = dec(rxview(b, fr))
         tr = trs.setdefault(ctx, MapperTracker())
         sn = sends_of(b)
         if d['tos'] in (0, 1) and d['opc'] == 0:
@@ -103,7 +103,7 @@ def count(name, lines, ib, stats, meta):
     tr = MapperTracker()
     for b in ib:
         if not b.op.startswith('frame'): continue
-        ctx, fr = frame_of(b); d = dec(fr + bytes(max(0, 36 - len(fr))))
+        ctx, fr = frame_of(b); d = dec(rxview(b, fr))
         stats['evaluations'] += 1
         stcls = 'none' if tr.active is None else 'open' if tr.active == '?' else ('own' if tr.active == d['rsrc'] else 'other')
         stats['distinct'].add((stcls, d['tos'] if (d['tos'] < 3 or name.startswith('sweep')) else 'x', d['opc'] if (d['opc'] < 13 or name.startswith('sweep')) else 'x', bool(sends_of(b))))
